@@ -133,8 +133,18 @@ INT_POOLS = {
 }
 
 
+MIXED_STR_POOL = ["1", "2", "3", "4", "10", "5", "b", "6", "7", "8", "9", "11", "c", "12", "13", "14"]
+
+
 def _pool(kind, n):
     """at least n distinct names of the given kind (the hand-picked pools hold 16; more are derived)"""
+    if kind == "mixedstr":
+        pool = list(MIXED_STR_POOL)
+        k = 15
+        while len(pool) < n:
+            pool.append(str(k))
+            k += 1
+        return pool
     if kind == "str":
         pool = list(STR_POOL_SIMPLE)
     elif kind == "strodd":
@@ -160,9 +170,14 @@ def _pool(kind, n):
 
 
 @st.composite
-def element_names(draw, n, kinds=("dense", "dense1", "mult8", "mult32", "negs", "big", "str", "strodd")):
+def element_names(draw, n, kinds=("dense", "dense1", "mult8", "mult32", "negs", "big", "str", "strodd", "mixedstr")):
     kind = draw(st.sampled_from(kinds))
     pool = _pool(kind, n)
+    if kind == "mixedstr":
+        # string names of which most are integer-like; the name "a" is always part of the dataset (datasets() sees to
+        # it), so the dataset keeps strings, while many of its sub-problems hold integer-like names only
+        perm = draw(st.permutations(pool))
+        return kind, (["a"] + list(perm[:max(0, n - 1)]))[:max(1, n)]
     perm = draw(st.permutations(pool))
     return kind, list(perm[:n])
 
@@ -422,6 +437,8 @@ def datasets(draw, max_n=7, max_m=5, min_n=1, shapes=None, kinds=None, allow_emp
     # at least one element overall (the library refuses an element-free dataset: documented)
     if not any(b for r in rankings for b in r):
         rankings[0] = [[names[0]]]
+    if kind == "mixedstr" and not any("a" in b for r in rankings for b in r):
+        rankings.append([["a"]])
     # optionally make first-appearance order unrelated to ranking order: put a shuffled sub-ranking first
     if draw(st.integers(0, 3)) == 0:
         i = draw(st.integers(0, len(rankings) - 1))
